@@ -75,6 +75,29 @@ func (flavor) Oracle(ops []lc.Op, obs []lc.StepObs) []core.Failure {
 			fails = append(fails, core.Failure{Class: "default-logger-differs",
 				What: fmt.Sprintf("op %d (%s → %s): caddy.Log() is the default logger set up for operation %d, expected that of operation %d (-1 = the one from before the history): the last accepted configuration's — a config that is rejected or only validated must put the previous default logger back", i, op, o.Res, o.DLogger-1, specLogger-1)})
 		}
+		// the unix socket file: there iff the running configuration has the socket, with the permission
+		// bits the running configuration asks for — whatever a rejected or validated config asked for
+		wantMode := -1
+		if running != nil {
+			for _, ap := range running.Apps {
+				for _, ad := range ap.Listen {
+					if ad >= lc.NAddr {
+						wantMode = lc.UnixMode(ad)
+					}
+				}
+			}
+		}
+		if o.UMode != wantMode {
+			cls := "unix-socket-file-mode-differs"
+			if o.UMode >= 0 && wantMode >= 0 {
+				// the file is there and so is the running configuration's socket, but the bits are
+				// those of a configuration that bound the socket and was then rejected (known finding;
+				// candidate patch .run/fixes/C01-3-unix-socket-mode.patch)
+				cls = "unix-socket-file-mode-left-by-rejected-config"
+			}
+			fails = append(fails, core.Failure{Class: cls,
+				What: fmt.Sprintf("op %d (%s → %s): the unix socket file has mode %s, the running configuration asks for %s (-1 = no such file)", i, op, o.Res, showMode(o.UMode), showMode(wantMode))})
+		}
 		wantRaw := "null"
 		if running != nil {
 			wantRaw = running.String()
@@ -155,4 +178,11 @@ func enteredRun(op lc.Op, o lc.StepObs, attempted *lc.Cfg) bool {
 		return false
 	}
 	return true
+}
+
+func showMode(m int) string {
+	if m < 0 {
+		return "-1"
+	}
+	return fmt.Sprintf("%04o", m)
 }
